@@ -75,7 +75,15 @@ def _mid_task(kind, code, who, lwt, ev, want_lost_seen, controlled=False):
     late_tick = False
     for _ in range(K):
         w.adv(nd.draw(0, 2 * LWT_MAX + 5))
-        e = nd.draw(0, 2)
+        e = nd.draw(0, 3)
+        if e == 3:
+            # another worker leaves while idle (recycled, shrunk, crashed between jobs): one more reaping pass during the grace period,
+            # which must neither restart the period nor replace the status recorded for the lost job
+            idle = [x for x in p._pool if x.exitcode is None and x.state == 'idle']
+            if not idle or t_detect is None:
+                raise Prune()
+            w.w_exit(idle[0], 0)
+            continue
         if e == 0:
             w.tick()
             lost = A.observe().lost
